@@ -168,11 +168,11 @@ def main(prop, meta):
     native_fail_by_obl = {}
     if native:
         for f in native.get("failures", []):
-            native_fail_by_obl.setdefault(f.get("obligation", ""), []).append(f)
             kf = match_known(known, prop, f["oracle"], f.get("witness_class"))
             if kf:
                 known_hits.append((kf, f))
-                continue
+                continue          # (a listed finding never stands in for an unproved obligation)
+            native_fail_by_obl.setdefault(f.get("obligation", ""), []).append(f)
             path = write_replay("native." + f["oracle"] + "." + str(f.get("witness_class", "")), dict(f, property=prop, kind="native", root=a.root))
             violations.append((f["oracle"], path, ""))
 
